@@ -27,8 +27,11 @@ def file_sha(path: str) -> str:
 
 @contextlib.contextmanager
 def locked(name: str):
-    os.makedirs(BUILD, exist_ok=True)
-    path = os.path.join(BUILD, name + ".lock")
+    # the lake lock protects lean/.lake, which is shared by every run from this
+    # verif tree whatever its VERIF_BUILD (mutant runs use their own build dir)
+    base = os.path.join(LEAN, ".lake") if name == "lake" else BUILD
+    os.makedirs(base, exist_ok=True)
+    path = os.path.join(base, name + ".lock")
     with open(path, "w") as f:
         fcntl.flock(f, fcntl.LOCK_EX)
         try:
